@@ -5,6 +5,7 @@ Property theorems only.
 import Biogo.Spec.FeatIO
 import Biogo.Proofs.FeatBedRound
 import Biogo.Proofs.FeatGffRound
+import Biogo.Proofs.FeatSeqRound
 
 namespace Biogo.Properties.C02
 open Biogo.BytesFeat Biogo.Gff Biogo.FeatIO
@@ -153,6 +154,53 @@ theorem gff_write_count (o : Oracles) (f : Feature) (text : Bytes) (n : Nat)
   split at h
   · cases h
   · cases h; simp
+
+/-! ## sequence-region lines and inline sequences -/
+
+/-- C02 "sequence-region lines … round-trip likewise": a region (name without white space,
+    int64 start < end) written as `##sequence-region name start+1 end` — by `Write(*Region)`,
+    `WriteMetaData(*Feature)` or `Write` of any other feature — reads back as a region with the
+    same name, Start and End (molecule type: the reader's current `##Type`, undefined here);
+    reported count = bytes emitted. -/
+theorem region_roundtrip (o : Oracles) (name : Bytes) (s e : Int) (hdr : Bool) (hn : nameOK name = true)
+    (hs : inInt64 s = true) (he : inInt64 e = true) (hlt : s < e) :
+    ∃ text n, writeRegion name s e = .ok (text, n) ∧ n = text.length ∧
+      (readAll o ((if hdr then headerText else []) ++ text)).1 = [.item (.region name (-1) s e), .eof] :=
+  ⟨_, _, writeRegion_eq name s e hlt, rfl, readAll_region o name s e hdr hn hs he hlt⟩
+
+/-- C02 "the name and letters of inline GFF sequences round-trip likewise": a sequence of
+    molecule type DNA/RNA/Protein (m = 0,1,2) with a white-space-free name, a trimmed single-line
+    description (dropped by the reader), non-empty ASCII letters without white space, written at any
+    line width ≥ 1 — provided no line of letters is itself the end marker `end-<Mol>` — reads back
+    with the same name and letters; reported count = bytes emitted.  (`width = 0` is a division by
+    zero in the FASTA writer and is outside the model: `i % 0 = i` in Lean.) -/
+theorem inline_seq_roundtrip (o : Oracles) (width m : Nat) (hm : m ≤ 2) (id desc letters : Bytes) (hdr : Bool)
+    (hid : nameOK id = true) (hd : descOK desc = true) (hl : lettersOK letters = true)
+    (hend : noEndMarker width m letters = true) :
+    ∃ text n, writeSeq width m id desc letters = .ok (text, n) ∧ n = text.length ∧
+      (readAll o ((if hdr then headerText else []) ++ text)).1 = [.item (.sequence id m letters), .eof] := by
+  obtain ⟨t, hw, hr⟩ := readAll_seq o width m hm id desc letters hdr hid hd hl hend
+  exact ⟨t, t.length, hw, rfl, hr⟩
+
+/-- "reported byte counts equal bytes emitted", region and inline-sequence writers (every outcome) -/
+theorem region_write_count (name : Bytes) (s e : Int) (text : Bytes) (n : Nat)
+    (h : writeRegion name s e = .ok (text, n)) : n = text.length := by
+  unfold writeRegion at h
+  split at h
+  · cases h
+  · cases h; rfl
+
+theorem inline_seq_write_count (width m : Nat) (id desc letters text : Bytes) (n : Nat)
+    (h : writeSeq width m id desc letters = .ok (text, n)) : n = text.length := by
+  unfold writeSeq at h
+  split at h
+  · cases h
+  · split at h
+    · cases h
+    · cases h; rfl
+
+example : nameOK (ofString "chrX") = true ∧ descOK (ofString "a description") = true ∧
+    lettersOK (ofString "acgtacgtac") = true ∧ noEndMarker 3 0 (ofString "acgtacgtac") = true := by decide +kernel
 
 /-! non-vacuity: a feature with a negative start, an infinite score (formatted `+Inf`), three
     attributes (one with an empty value, one quoted with spaces) and a comment -/
